@@ -128,76 +128,119 @@ class OutOfDomain(Exception):
     pass
 
 
-LIM = 1 << 32
-
-
-def _chk(v):
-    if v < 0 or v >= LIM:
-        raise OutOfDomain()
-    return v
+# "the domain Verilog gives them": every intermediate value must be non-negative and fit the width IEEE 1364 gives the
+# expression node it appears in (never more than 31 bits: integers and unsized literals are signed 32-bit).  The sizing
+# below follows 1364-2005 section 5.4 for the constructs the transpiler emits: ports are unsigned of their declared width,
+# integers (s, t), literals and the constructor constant k are 32 bit; + - * / % & | ^ ~ and unary minus are as wide as
+# their context; shift amounts, conditions and the operands of logical operators are self-determined; the two operands of
+# a comparison are sized together; a case subject is sized with its (32-bit) labels.
+# The interpreter only DISCARDS input sequences (a smaller domain is always sound); verdicts never use it.
+INTW = 32
+CAP = 31
 
 
 class Interp:
-    def __init__(self, kind, k):
+    def __init__(self, kind, k, widths=(32, 32, 32)):
         self.kind = kind
         self.k = k
         self.s = 0
+        self.wa, self.wb, self.wr = widths
 
-    def expr(self, e, env):
+    def selfw(self, e):
+        t = e[0]
+        if t == 'a':
+            return self.wa
+        if t == 'b':
+            return self.wb
+        if t in ('s', 't', 'k', 'c'):
+            return INTW
+        if t == 'un':
+            return self.selfw(e[2])
+        if t == 'bin':
+            if e[1] in ('<<', '>>'):
+                return self.selfw(e[2])
+            return max(self.selfw(e[2]), self.selfw(e[3]))
+        if t == 'tern':
+            return max(self.selfw(e[2]), self.selfw(e[3]))
+        raise ValueError(e)
+
+    @staticmethod
+    def chk(v, w):
+        if v < 0 or v >= (1 << min(w, CAP)):
+            raise OutOfDomain()
+        return v
+
+    def expr(self, e, env, w=None):
+        if w is None:
+            w = self.selfw(e)
+        w = max(w, self.selfw(e))
         t = e[0]
         if t in ('a', 'b'):
-            return env[t]
+            return self.chk(env[t], w)
         if t == 's':
-            return self.s if self.kind == 'clock' else self.k
+            return self.chk(self.s if self.kind == 'clock' else self.k, w)
         if t == 't':
-            return env['t']
+            return self.chk(env['t'], w)
         if t == 'k':
-            return self.k
+            return self.chk(self.k, w)
         if t == 'c':
-            return e[1]
+            return self.chk(e[1], w)
         if t == 'un':
-            v = self.expr(e[2], env)
-            return _chk(~v if e[1] == '~' else -v)
+            v = self.expr(e[2], env, w)
+            return self.chk(~v if e[1] == '~' else -v, w)
         if t == 'bin':
-            x = self.expr(e[2], env)
-            y = self.expr(e[3], env)
             op = e[1]
+            if op in ('<<', '>>'):
+                x = self.expr(e[2], env, w)
+                y = self.expr(e[3], env, None)          # shift amount: self-determined
+                if y >= 32:
+                    raise OutOfDomain()
+                return self.chk(x << y if op == '<<' else x >> y, w)
+            x = self.expr(e[2], env, w)
+            y = self.expr(e[3], env, w)
             if op in ('//', '%') and y == 0:
                 raise OutOfDomain()
-            if op in ('<<', '>>') and y >= 32:
-                raise OutOfDomain()
-            r = {'+': x + y, '-': x - y, '*': x * y, '//': x // y if y else 0, '%': x % y if y else 0, '&': x & y, '|': x | y, '^': x ^ y,
-                 '<<': x << min(y, 64), '>>': x >> min(y, 64)}[op]
-            return _chk(r)
+            r = {'+': x + y, '-': x - y, '*': x * y, '//': x // y if y else 0, '%': x % y if y else 0, '&': x & y, '|': x | y, '^': x ^ y}[op]
+            return self.chk(r, w)
         if t == 'tern':
-            return self.expr(e[2], env) if self.cond(e[1], env) else self.expr(e[3], env)
+            return self.expr(e[2], env, w) if self.cond(e[1], env) else self.expr(e[3], env, w)
         raise ValueError(e)
 
     def cond(self, c, env):
         t = c[0]
         if t == 'cmp':
-            x, y = self.expr(c[2], env), self.expr(c[3], env)
+            w = max(self.selfw(c[2]), self.selfw(c[3]))
+            x, y = self.expr(c[2], env, w), self.expr(c[3], env, w)
             return {'==': x == y, '!=': x != y, '<': x < y, '<=': x <= y, '>': x > y, '>=': x >= y}[c[1]]
         if t == 'and':
-            return self.cond(c[1], env) and self.cond(c[2], env)
+            # both operands are evaluated in Verilog: both must be in the domain
+            x = self.cond(c[1], env)
+            y = self.cond(c[2], env)
+            return x and y
         if t == 'or':
-            return self.cond(c[1], env) or self.cond(c[2], env)
+            x = self.cond(c[1], env)
+            y = self.cond(c[2], env)
+            return x or y
         if t == 'not':
             return not self.cond(c[1], env)
-        return self.expr(c[1], env) != 0
+        return self.expr(c[1], env, None) != 0
+
+    def target_width(self, tgt):
+        return self.wr if tgt == 'r' else INTW
 
     def run(self, xs, env):
         for s in xs:
             t = s[0]
             if t == 'assign':
-                v = self.expr(s[2], env)
+                v = self.expr(s[2], env, self.target_width(s[1]))
+                self.chk(v, self.target_width(s[1]))
                 if s[1] == 's' and self.kind == 'clock':
                     self.s = v
                 elif s[1] != 'r':
                     env['t'] = v
             elif t == 'aug':
                 cur = self.s if self.kind == 'clock' else env['t']
-                v = self.expr(['bin', s[2], ['c', cur], s[3]], env)
+                v = self.expr(['bin', s[2], ['c', cur], s[3]], env, INTW)
                 if self.kind == 'clock':
                     self.s = v
                 else:
@@ -215,7 +258,7 @@ class Interp:
                     if not done:
                         self.run(s[4], env)
             elif t == 'match':
-                v = self.expr(s[1], env)
+                v = self.expr(s[1], env, INTW)
                 hit = False
                 for c, body in s[2]:
                     if v == c:
